@@ -118,7 +118,8 @@ def parse_out(path):
         if line.startswith("CAND\t"):
             p = line.split("\t")
             if len(p) >= 4:
-                cands.append({"kind": p[1], "case": p[2], "detail": p[3]})
+                cands.append({"kind": p[1], "case": p[2], "detail": p[3],
+                              "index": int(p[4]) if len(p) > 4 and p[4].lstrip("-").isdigit() else -1})
         elif line.startswith("DUMP\t"):
             p = line.split("\t")
             if len(p) >= 3:
@@ -155,6 +156,37 @@ def replay_once(cand):
     return rc, so, se
 
 
+def prefix_replay_once(cand):
+    """re-runs the candidate's shard from its first case up to and including
+    the candidate's case, in a fresh process (history-dependent failures)"""
+    import tempfile
+    outdir = tempfile.mkdtemp(prefix="prefix_", dir=C.build_dir(key()))
+    outfile = os.path.join(outdir, "out.txt")
+    cmd = [binary_path(cand["tag"], cand["variant"]), "--driver", cand["driver"],
+           "--space", cand["space"], "--shard", cand["shard"], "--out", outfile,
+           "--only-until", str(cand["index"])]
+    if cand.get("props"):
+        cmd += ["--props", cand["props"]]
+    if cand.get("extra"):
+        cmd += ["--extra", cand["extra"]]
+    try:
+        rc, so, se = C.run_cmd(cmd, timeout=1800, env=ASAN_ENV)
+    except Exception:
+        return False
+    cands, _d, _s, _sum = parse_out(outfile)
+    try:
+        os.remove(outfile)
+        os.rmdir(outdir)
+    except OSError:
+        pass
+    ok = any(c["kind"] == cand["kind"] and c["case"] == cand["case"] and c["index"] == cand["index"]
+             for c in cands)
+    if not ok and os.environ.get("VERIF_DEBUG"):
+        with open("/tmp/prefix_debug.log", "a") as fh:
+            fh.write("CMD %r\nRC %s\nERR %s\nCANDS %r\nWANT %r\n\n" % (cmd, rc, se[-300:], cands[:3], (cand["kind"], cand["case"], cand["index"])))
+    return ok
+
+
 def confirm(cand):
     """a candidate is reported only if it reproduces identically, twice, in
     fresh processes"""
@@ -169,6 +201,10 @@ def confirm(cand):
         cand["replay_output"] = (r1[1] + r1[2])[-1500:]
         return "confirmed"
     if not bad1 and not bad2:
+        # not reproducible on its own: does it depend on the cases before it?
+        if cand.get("index", -1) >= 0 and prefix_replay_once(cand) and prefix_replay_once(cand):
+            cand["replay_kind"] = "prefix"
+            return "confirmed"
         return "not_reproduced"
     return "unstable"
 
@@ -214,7 +250,8 @@ def execute(res, runs, space_note="", deadline_total=None, max_confirm=40,
                 pr["deadline_hit"] = 1
             for c in cands:
                 c.update({"tag": run.tag, "variant": run.variant, "driver": run.driver,
-                          "props": run.props, "space": run.space, "extra": run.extra})
+                          "props": run.props, "space": run.space, "extra": run.extra,
+                          "shard": "%d/%d" % (shard, run.shards)})
                 raw_cands.append(c)
             if shard == 0:
                 for s_ in samples[:3]:
@@ -226,7 +263,8 @@ def execute(res, runs, space_note="", deadline_total=None, max_confirm=40,
                     if bad:
                         # the C++ harness did not flag it, the python oracle does
                         flagged = any(c["case"] == reg for c in cands)
-                        if not flagged:
+                        truncated = summary.get("candidates", 0) > len(cands)
+                        if not flagged and not truncated:
                             disagreements += 1
                             res.harness_errors.append(
                                 "oracle disagreement on %s: %s" % (reg, bad))
@@ -291,8 +329,8 @@ def execute(res, runs, space_note="", deadline_total=None, max_confirm=40,
                     res.confirmed.append(c)
                 elif verdict == "not_reproduced":
                     res.harness_errors.append(
-                        "candidate did not reproduce in a fresh process: [%s] %s :: %s"
-                        % (c["kind"], c["case"], c["detail"][:200]))
+                        "candidate did not reproduce in a fresh process: [%s] %s :: %s (run %s shard %s index %s)"
+                        % (c["kind"], c["case"], c["detail"][:200], c.get("extra"), c.get("shard"), c.get("index")))
                 else:
                     res.harness_errors.append(
                         "candidate reproduced inconsistently: [%s] %s" % (c["kind"], c["case"]))
